@@ -336,6 +336,9 @@ func genHand(seed int64, allow map[string]bool) *Scenario {
 			hp.WithholdAns = []string{"ready1", "ready2", "ante", "blinds", "ready3"}[r.Intn(5)]
 			hp.WithholdMs = 250
 		}
+		if b.sc.ActionTime > 0 && r.Intn(6) == 0 {
+			hp.ThinkMs, hp.ThinkTurn = 2300, r.Intn(3)
+		}
 		if r.Intn(4) == 0 {
 			// answers that arrive after the hand has produced a collection request but before the updater has published
 			// it (the producing goroutine is parked at game.queue): refused, or accepted AND counted
